@@ -8,6 +8,20 @@
 // stream and every frame callback it dispatches is observable.
 // Predicates: contracts/spec/stream_wiring.rs (independent transcription of RFC 9000 2.1, 3.2, 4.6, 18.2).
 //
+// What is under contract here (all on the real objects, `level=bounded`, container shape 0-1 streams):
+//   * `AbstractStreamManager::new` + `StreamManagerState::insert_stream`: the StreamConfig handed to a stream
+//     (send window = what the PEER declared for that stream class, receive window = what WE declared, desired ==
+//     receive window, role, send-buffer limit, both flow-controller handles shared with the connection);
+//   * `AbstractStreamManager::{on_max_streams, poll_open_local_stream}`: id allocation (first + 4 * opened, next id
+//     advances by 4, other classes untouched), Ready iff within the peer's MAX_STREAMS and the local limit, a blocked
+//     class resumes iff a MAX_STREAMS frame OF ITS TYPE raised the limit; glue invariant next_id == nth(opened);
+//   * `StreamManagerState::open_stream_if_necessary`: peer-opened ids (STREAM_LIMIT_ERROR iff index >= advertised
+//     limit, state unchanged on error, stream created with the right config, next id past the highest opened) and
+//     locally initiated ids (STREAM_STATE_ERROR iff never opened, nothing changes);
+//   * `AbstractStreamManager::on_max_data`: reaches the connection's outgoing flow controller and nothing else.
+// NOT under contract (did not terminate, see STRENGTH-mgr.md "Not achieved"): the frame entry points through
+// `handle_stream_frame` (per-stream dispatch, error path `close()`), two insertions, MAX_DATA with a parked stream.
+//
 // Tool notes (measured, see STRENGTH-mgr.md): role / stream type / initiator are CONCRETE at every call site
 // (one thin harness per combination calling a shared generic check) because a symbolic role+type makes CBMC
 // explore all four controller classes through `Rc<RefCell>`/intrusive-collection pointers (10 M clauses,
